@@ -135,6 +135,7 @@ class Function(object):
         self._reach = seen
         self._dom = None
         self._pdom = None
+        self._loops = None
 
     def reachable(self, bname):
         return bname in self._reach
@@ -286,6 +287,26 @@ class Function(object):
             seen.add(n)
             st.extend(self.bmap[n].succs)
         return seen
+
+    def loops(self):
+        """natural loops: list of dict(header, body(set of block names), latches)"""
+        if getattr(self, "_loops", None) is not None:
+            return self._loops
+        by_header = {}
+        for b in self.rblocks():
+            for s in b.succs:
+                if self.dominates(s, b.name):  # back edge b -> s
+                    body = by_header.setdefault(s, {"header": s, "body": set([s]), "latches": []})
+                    body["latches"].append(b.name)
+                    st = [b.name]
+                    while st:
+                        n = st.pop()
+                        if n in body["body"]:
+                            continue
+                        body["body"].add(n)
+                        st.extend(p for p in self.bmap[n].preds if self.reachable(p))
+        self._loops = list(by_header.values())
+        return self._loops
 
     # -- def-use -----------------------------------------------------------------
     def uses(self):
